@@ -79,6 +79,17 @@ class BgTLC(threading.Thread):
         return r
 
 
+def fold_counts(ctx, job, r):
+    lab = job["label"]
+    ctx.log("tlc %s: rc=%d generated=%d distinct=%d depth=%d %.1fs" % (lab, r.rc, r.generated, r.distinct, r.depth, r.wall))
+    ctx.cov["states"] += r.distinct
+    ctx.cov["transitions"] += r.generated
+    ctx.cov["tlc_runs"].append({"run": lab, "rc": r.rc, "generated": r.generated, "distinct": r.distinct,
+                                "depth": r.depth, "wall_s": round(r.wall, 2)})
+    if r.rc == 124:
+        raise Machinery("TLC timeout on %s" % lab)
+
+
 def fold(ctx, job, r):
     lab = job["label"]
     ctx.log("tlc %s: rc=%d generated=%d distinct=%d depth=%d %.1fs" % (lab, r.rc, r.generated, r.distinct, r.depth, r.wall))
@@ -114,6 +125,42 @@ def uncovered_actions(out):
         if total == 0 and name not in ("Init",):
             never.append(name)
     return sorted(set(never))
+
+
+def wit_jobs(ctx):
+    """Directed schedules (U2): one schedule per state in which a behaviour first takes a branch of interest."""
+    jobs = []
+    base = {"G": "G3", "MAXPEER": "1", "KINDS": '{"d1"}', "WITLEN": "16", "TARGETS": "AllTags"}
+    if ctx.quick:
+        plan = [("client", "1.2", "ProgsWitQ", '{"d1"}')]
+    else:
+        plan = [("client", "1.2", "ProgsWit", '{"d1","d2"}'), ("client", "1.3", "ProgsWit", '{"d1","d2"}'),
+                ("server", "1.2", "ProgsWitQ", '{"d1","d2"}'), ("server", "1.3", "ProgsWitQ", '{"d1","d2"}')]
+    for side, ver, progs, kinds in plan:
+        s = dict(base, PROGS=progs, SHAPE=SHAPES[(side, ver)], KINDS=kinds, MAXPEER="1" if ctx.quick else "2")
+        jobs.append({"n": 100 + len(jobs), "label": "directed %s %s %s" % (side, ver, progs), "module": "MC_TLSConn",
+                     "cfg": "TLSConn_wit.cfg", "subst": s, "side": side, "ver": ver, "timeout": 3000})
+    return jobs
+
+
+def wit_schedules(ctx, job, r, per_tag, rng):
+    if r.rc != 0:
+        raise Machinery("TLC failed on %s (rc=%d):\n%s" % (job["label"], r.rc, "\n".join(r.out.splitlines()[-30:])))
+    by_tag = {}
+    for l in r.out.splitlines():
+        if l.startswith('"{'):
+            s = json.loads(json.loads(l))
+            by_tag.setdefault(s["tag"], []).append(s)
+    if not by_tag:
+        raise Machinery("no directed schedule generated by %s" % job["label"])
+    out = []
+    for tag in sorted(by_tag):
+        c = by_tag[tag]
+        c.sort(key=lambda s: json.dumps(s, sort_keys=True))
+        rng.shuffle(c)
+        out += c[:per_tag]
+    ctx.cov.setdefault("directed_branches", {})[job["label"]] = {t: len(v) for t, v in by_tag.items()}
+    return out
 
 
 def mc_jobs(ctx):
@@ -450,6 +497,8 @@ def run(ctx):
     ctx._prepare_spec()
     bg = BgTLC(ctx, mc_jobs(ctx))
     bg.start()
+    bgw = BgTLC(ctx, wit_jobs(ctx))
+    bgw.start()
     try:
         binary = ctx.gobuild("c34")
         p = ctx.run(binary, ["selftest"])
@@ -472,6 +521,20 @@ def run(ctx):
             plan.append(("client", "1.0", plan[0][2][:150]))
         nid = 1
         strict, loose = [], []
+        # directed schedules
+        bgw.join()
+        if bgw.error:
+            raise Machinery("background TLC (directed schedules): %r" % (bgw.error,))
+        rngw = random.Random(ctx.seed)
+        ndir = 0
+        for j, r in bgw.results:
+            fold_counts(ctx, j, r)
+            ws = wit_schedules(ctx, j, r, 10 if quick else 60, rngw)
+            c = concretise(ws, nid, j["side"], j["ver"], "strict", ctx.seed)
+            nid += len(c)
+            ndir += len(c)
+            strict += c
+        ctx.cov["directed_schedules"] = ndir
         for side, ver, ss in plan:
             c = concretise(ss, nid, side, ver, "strict", ctx.seed)
             nid += len(c)
@@ -507,7 +570,16 @@ def run(ctx):
             go("strict-race", strict, True)
             go("loose-race", loose + rnd, True)
             go("loose", loose + rnd, False)
-        judge(ctx, binary, binary_race, batches)
+        acc, nrej = judge(ctx, binary, binary_race, batches)
+        if not quick and nrej == 0:
+            # observation (left open by the statement): did every Write arrive as one contiguous piece?
+            r = ctx.tlc("Trace_TLSConn", "TLSConn_trace.cfg", workers=1, expect_ok=False, count=False, timeout=1800,
+                        label="Trace_TLSConn atomicity observation")
+            na = len(re.findall(r'<<"NONATOMIC", \d+>>', r.out))
+            ctx.cov["executions_with_interleaved_writes"] = na
+            if na:
+                print("MODEL-DRIFT property=C34 %d recorded executions in which two Writes interleaved at record "
+                      "granularity (the B model predicts atomic Writes; the statement leaves it open)" % na, flush=True)
         allev = [e for b in batches for e in b[3]]
 
         # vacuity of the binding
@@ -534,6 +606,7 @@ def run(ctx):
         if not quick:
             selftest(ctx, allev)
     finally:
+        bgw.join()
         bg.join()
     if bg.error:
         raise Machinery("background TLC: %r" % (bg.error,))
